@@ -27,6 +27,11 @@ Round 6: D4-payload-handed-on-intact on the same hops and on the way back (resul
    the classes down to the declared root store (interface condition between a base-class copy and the subclasses that
    inherit it); a fixed class, a conversion or a wrapper is not the payload.  Provenance: `typing.cast(T, x)` is x and the
    module a function is looked up in (`copy.deepcopy(x)`) is not per-job state.
+Round 7: D9-status-consumed-for-good: in the handling of a status message no pending Future awaits, the master (callees
+   included, a channel handed to a callee bound at the call) publishes nothing on a channel its own status subscription
+   matches (shell patterns intersected) - such a message comes back on every turn and starves the status channels
+   created after it; an echo that runs only for an awaited status is harmless (the entry is removed in the same step).
+   D6 finds the master's message loop by role (run_forever or the function the listen phase was moved to).
 
 All function bodies are analysed in their normal form (sa/normal.py: private helpers inlined,
 named sub-expressions substituted), and the constructs are found by role (what they read /
@@ -1973,6 +1978,16 @@ def run(repo: Repo, R: Report) -> None:
     for st_t in sorted(status_templates):
         R.check(fnmatch(st_t.replace("{}", "00000000-0000"), _deref(msub_fn, msubs[0].args[0]).value) and not fnmatch("jobs.0000.cfg", _deref(msub_fn, msubs[0].args[0]).value), r_corr, Q, RUN, norm(msubs[0]) + f" ~ {st_t}",
                 "master subscription pattern does not match the worker's status channel template", msubs[0].lineno)
+    # ------------------------------------------------------------------ D9 a status the master takes is consumed for good
+    def awaited_atom(x: ast.AST) -> Optional[bool]:
+        r = pending_atom(x)
+        if r is None and isinstance(x, ast.Compare) and len(x.ops) == 1 and isinstance(x.ops[0], (ast.In, ast.NotIn)) and dotted_name(x.comparators[0]) == pend:
+            r = isinstance(x.ops[0], ast.In)
+        return r
+
+    status_consumed_rule(repo, R, [(orel, oqn, ofn, omsg) for orel, oqn, ofn, omsg, _sink in own_sites] or [(srel, sqn, sf, None)],
+                         _deref(msub_fn, msubs[0].args[0]).value, awaited_atom)
+
     # context key written by worker (both outcomes) = key read by master
     for fn in wfuncs:
         for c in calls_in(fn):
@@ -2069,13 +2084,143 @@ def run(repo: Repo, R: Report) -> None:
         R.rule_prefix = ""
 
     # ------------------------------------------------------------------ D6 the loops' scan survives publishers
-    scan_rule(repo, R, rf, wl, (wrel, wqn))
+    # (the master's message loop by role: run_forever, or the function of its call graph the listen phase was moved to)
+    lrel, lqn, lf = role_function(repo, Q, RUN, lambda f: bool(_message_loops(f)), "message loop over the status subscription", copyprop="all")
+    scan_rule(repo, R, lf, wl, (wrel, wqn), (lrel, lqn))
 
     # ------------------------------------------------------------------ D7 the pending map is never walked live
     pending_walk_rule(repo, R, pend, [Q, erel, srel, crel])
 
     # ------------------------------------------------------------------ D8 the pending map keeps the futures
     pending_map_kind_rule(repo, R, pend, erel if "." in eqn else Q, eqn if "." in eqn else ENQ)
+
+
+def globs_overlap(a: str, b: str) -> bool:
+    """Some string is matched by both shell patterns (`*` and `?` interpreted, everything else literal)."""
+    memo: Dict[Tuple[int, int], bool] = {}
+
+    def go(i: int, j: int) -> bool:
+        if (i, j) not in memo:
+            if i == len(a):
+                r = all(ch == "*" for ch in b[j:])
+            elif j == len(b):
+                r = all(ch == "*" for ch in a[i:])
+            elif a[i] == "*":
+                r = go(i + 1, j) or go(i, j + 1)
+            elif b[j] == "*":
+                r = go(i, j + 1) or go(i + 1, j)
+            else:
+                r = (a[i] == "?" or b[j] == "?" or a[i] == b[j]) and go(i + 1, j + 1)
+            memo[(i, j)] = r
+        return memo[(i, j)]
+
+    return go(0, 0)
+
+
+def channel_glob(fn: Optional[ast.AST], e: Optional[ast.AST], env: Optional[Dict[str, Optional[str]]] = None) -> Optional[str]:
+    """The channel names an expression can denote, as a shell pattern: its template (constant / f-string / format /
+    % / + spelling, a local naming it looked through) with `*` for every interpolated value; a parameter bound at
+    the call site stands for what was handed over (*env*); None when the expression is not understood."""
+    e = _deref(fn, e)
+    if isinstance(e, ast.Name) and env is not None and e.id in env:
+        return env[e.id]
+    t = fstring_template(e)
+    return t[0].replace("{}", "*") if t is not None else None
+
+
+def publishes_under(repo: Repo, mod, fn: ast.AST, parts: List[ast.AST], env: Optional[Dict[str, Optional[str]]] = None, depth: int = 0,
+                    seen: Optional[Set[int]] = None) -> List[Tuple[str, str, ast.Call, Optional[str]]]:
+    """(file, function, call, channel pattern) for every `<transport>.publish(<channel>, ..)` that runs when *parts*
+    (statements / expressions of *fn*, normal form) run: the calls written there and those of the repo functions
+    they reach (three levels of the call graph; a channel a callee receives as a parameter is bound at the call)."""
+    seen = set() if seen is None else seen
+    out: List[Tuple[str, str, ast.Call, Optional[str]]] = []
+    for part in parts:
+        for c in calls_in(part):
+            if call_attr(c) == "publish" and (c.args or kwarg(c, "channel") is not None):
+                out.append((mod.rel, qualname_of(fn) if isinstance(fn, FuncNode) else "", c, channel_glob(fn, c.args[0] if c.args else kwarg(c, "channel"), env)))
+                continue
+            if depth >= 3:
+                continue
+            try:
+                targets = repo.resolve_call(mod, c)
+            except Exception:
+                targets = []
+            for tm, tn in targets:
+                if not isinstance(tn, FuncNode) or id(tn) in seen or not calls_in(tn):
+                    continue
+                try:
+                    nf = nfunc(repo, tm.rel, qualname_of(tn), copyprop="all")
+                except Exception:
+                    nf = tn
+                params = [a.arg for a in nf.args.posonlyargs + nf.args.args]  # type: ignore[attr-defined]
+                off = 1 if params and params[0] in ("self", "cls") and isinstance(c.func, ast.Attribute) else 0
+                env2: Dict[str, Optional[str]] = {}
+                for i, p in enumerate(params + [a.arg for a in nf.args.kwonlyargs]):  # type: ignore[attr-defined]
+                    a = c.args[i - off] if off <= i < len(params) and i - off < len(c.args) else kwarg(c, p)
+                    if a is not None and not any(isinstance(x, ast.Name) and x.id == p and isinstance(x.ctx, ast.Store) for x in walk_no_nested(nf)):
+                        env2[p] = channel_glob(fn, a, env)
+                out += publishes_under(repo, tm, nf, list(nf.body), env2, depth + 1, seen | {id(tn)})  # (the functions on the call path: no recursion)  # type: ignore[attr-defined]
+    return out
+
+
+def status_consumed_rule(repo: Repo, R: Report, sites: List[Tuple[str, str, ast.AST, Optional[str]]], pattern: str, awaited) -> None:
+    """D9: the master is the only consumer of the jobs.<id>.status channels and takes one message per turn of its loop;
+    the in-memory subscription scans the channels in creation order and hands out the first message it finds.  A status
+    message is therefore taken out of the way of the ones behind it only if taking it *consumes* it.  A publish, in the
+    handling of a status message, on a channel the master's own subscription matches puts a message back in front of
+    the master; where that happens for a status no pending Future awaits (a fire-and-forget job - enqueue's default -
+    or a duplicate) nothing ever changes the decision: job ids are unique and registered before the job is published,
+    so the id never becomes pending, the message comes back on every turn, and every Future whose status channel was
+    created later is never completed.  (A publish that runs only for an awaited status is an echo: the entry is
+    removed in the same step and the echo is dropped when it comes back.)  *sites*: (file, function, normal form,
+    local the status message is bound to - None: the function handles one message it receives)."""
+    rule = R.rule("C15-D9-status-consumed-for-good", "in the handling of a status message that no pending Future awaits (from the binding of the message to the next one, callees included) the master publishes nothing on a channel "
+                  "its own status subscription matches: such a message comes back on every turn of the master loop (the id never becomes pending), it is found first again by the creation-order scan, and the Futures "
+                  "whose status channels were created after it never complete", 1)
+    for rel, qn, fn, msg in sites:
+        mod = repo.module(rel)
+        g = CFG(fn)
+        heads = [n.id for n in g.nodes if msg is not None and n.kind in ("for", "stmt", "with", "if", "while") and _node_defines(n, msg)]
+        inside: Optional[Set[int]] = None
+        for h in heads:
+            a = g.nodes[h].ast
+            loop = a if isinstance(a, (ast.For, ast.AsyncFor)) else next((x for x in ancestors(a) if isinstance(x, (ast.For, ast.AsyncFor, ast.While))), None)
+            if loop is not None and any(loop is x for x in ast.walk(fn)):
+                inside = (inside or set()) | {id(x) for x in ast.walk(loop)}
+        if heads:
+            starts = [t for h in heads for t, lab in g.succ[h] if lab not in (EXC, BASE) and not (g.nodes[h].kind == "for" and lab == "F")]
+        else:
+            starts = [g.entry]
+        off_limits = set(heads) | {n.id for n in g.nodes if n.ast is None or (inside is not None and id(n.ast) not in inside)}
+        starts = [s for s in starts if s not in off_limits]
+        guard_edges = {(n.id, lab) for n in g.nodes if n.kind in ("if", "while") and n.part is not None for lab in edges_guaranteeing(n.part, awaited)}
+        region = set(g.reach(starts, blocked=off_limits))
+        unawaited = g.reach(starts, blocked=off_limits, blocked_edges=guard_edges)
+        n_pubs = n_bad = 0
+        for nid in sorted(region):
+            n = g.nodes[nid]
+            consulted_before = set(repo.consulted)
+            found = publishes_under(repo, mod, fn, _node_parts(n))
+            repo.consulted = consulted_before | {prel for prel, _q, _c, _g in found}  # only the modules a publish was found in are consulted
+            for prel, pqn, c, glob in found:
+                n_pubs += 1
+                where = f"{norm(c)[:70]}" + (f" [in {pqn}]" if (prel, pqn) != (rel, qn) and pqn else "")
+                if glob is None:
+                    raise AnalysisError(f"{qn}: channel of `{norm(c)[:60]}`, published while a status message is handled, not understood")
+                if not globs_overlap(glob, pattern):
+                    continue
+                if nid in unawaited:
+                    n_bad += 1
+                    R.violation(rule, rel, qn, where + f" ~ subscribe({pattern!r})",
+                                f"while handling a status message that no pending Future awaits the master publishes on `{glob}`, a channel its own subscription `{pattern}` matches: the message is back in the "
+                                "transport when the master looks next, its job id never becomes pending (ids are unique and registered before the job is published), so it is re-published on every turn; the "
+                                "subscription scans the channels in creation order and the master takes one message per turn - every Future whose status channel was created after this one is never completed",
+                                getattr(c, "lineno", n.line), g.path_to(unawaited, nid) if hasattr(g, "path_to") else None)
+                else:
+                    R.ok(rule, rel, qn, where + " [echo of an awaited status only]", "", getattr(c, "lineno", n.line))
+        if n_bad == 0:
+            R.ok(rule, rel, qn, f"{n_pubs} publish(es) while a status message is handled, none for an un-awaited status on a channel matching `{pattern}`", "", g.nodes[heads[0]].line if heads else getattr(fn, "lineno", 0))
 
 
 def _message_loops(fn: ast.AST) -> List[ast.AST]:
@@ -2114,7 +2259,7 @@ def _catches_exception(loop: ast.AST, fn: ast.AST) -> bool:
     return False
 
 
-def scan_rule(repo: Repo, R: Report, rf: ast.AST, wl: ast.AST, worker: Tuple[str, str] = (W, "worker_loop")) -> None:
+def scan_rule(repo: Repo, R: Report, rf: ast.AST, wl: ast.AST, worker: Tuple[str, str] = (W, "worker_loop"), master: Tuple[str, str] = (Q, "QueueSemantivaOrchestrator.run_forever")) -> None:
     """D6: the master's and the workers' message loops run the transport's channel scan inside `for msg in sub`.
     Every job creates two new channels (jobs.<id>.cfg / jobs.<id>.status) from other threads, so a scan that walks
     the live channel map raises `RuntimeError: dictionary changed size during iteration` in the looping thread;
@@ -2122,7 +2267,7 @@ def scan_rule(repo: Repo, R: Report, rf: ast.AST, wl: ast.AST, worker: Tuple[str
     catch-all ends the worker.  Necessary condition: every iteration over the shared channel map is over a
     snapshot taken in one C-level call, or holds the lock under which every insertion happens."""
     r_scan = R.rule("C15-D6-scan-survives-publishers", "every iteration over the channel map shared between the transport and its subscriptions (the scan driven by the master's and the workers' `for msg in sub`) is over a one-call snapshot (list/tuple/sorted/.copy()) or under the lock held by every insertion; a live walk raises RuntimeError when another thread publishes on a new channel and kills the loop that completes the futures", 1)
-    loops = [(Q, "QueueSemantivaOrchestrator.run_forever", rf, l) for l in _message_loops(rf)] + [(worker[0], worker[1], wl, l) for l in _message_loops(wl)]
+    loops = [(master[0], master[1], rf, l) for l in _message_loops(rf)] + [(worker[0], worker[1], wl, l) for l in _message_loops(wl)]
     if len(loops) < 2:
         raise AnalysisError("message loops over a subscription not found in run_forever / worker_loop")
     unprotected = [qn for _f, qn, fn, l in loops if not _catches_exception(l, fn)]
